@@ -21,9 +21,26 @@ AErrors == { C("dollar",1,"bad"), X("U0301",2,"bad"), C("x",1,"alpha"), C("sp",1
              C("arabic3",2,"onum"), C("7",1,"digit"), C("rocket",4,"bad"), C("#",1,"hash"), C("excl",1,"sym") }
 \* remaining operators and keywords `else`/`true`
 AOps == { C("*",1,"sym"), C("/",1,"sym"), C("-",1,"sym"), C("e",1,"alpha"), C("l",1,"alpha"), C("s",1,"alpha"), C("nl",1,"nl"), C("cr",1,"ws"), C("tab",1,"ws"), C("9",1,"digit") }
+\* grapheme clusters whose boundaries depend on what precedes (UAX #29): pairs of regional indicators (GB12/13), emoji joined by
+\* a zero-width joiner (GB11), extending marks (GB9), no joining across a line break (GB4/5).  g = grapheme class.
+G(id, w, cls, g) == [id |-> id, w |-> w, cls |-> cls, gb |-> TRUE, g |-> g]
+AClusters == { G("U1F1FA",4,"bad","ri"), G("U200D",3,"bad","zwj"), G("rocket",4,"bad","pict"), G("U0301",2,"bad","extend"), G("x",1,"alpha","other"),
+               G("nl",1,"nl","ctl"), G("dollar",1,"bad","other") }
+RECURSIVE TrailingRI(_)
+TrailingRI(t) == IF t = <<>> \/ t[Len(t)].g # "ri" THEN 0 ELSE 1 + TrailingRI(SubSeq(t, 1, Len(t) - 1))
+RECURSIVE PictExt(_)
+PictExt(t) == t # <<>> /\ (t[Len(t)].g = "pict" \/ (t[Len(t)].g = "extend" /\ PictExt(SubSeq(t, 1, Len(t) - 1))))     \* ... pict extend*
+Boundary(t, c) ==
+  IF t = <<>> THEN TRUE
+  ELSE IF "g" \notin DOMAIN c THEN c.gb
+  ELSE IF t[Len(t)].g = "ctl" \/ c.g = "ctl" THEN TRUE
+  ELSE IF c.g \in {"extend", "zwj"} THEN FALSE
+  ELSE IF c.g = "pict" /\ t[Len(t)].g = "zwj" /\ PictExt(SubSeq(t, 1, Len(t) - 1)) THEN FALSE
+  ELSE IF c.g = "ri" /\ TrailingRI(t) % 2 = 1 THEN FALSE
+  ELSE TRUE
 Init == text = <<>> /\ st = InitLex
 Next == /\ Len(text) < N
-        /\ \E c \in Alphabet : LET ch == IF text = <<>> THEN [c EXCEPT !.gb = TRUE] ELSE c IN
+        /\ \E c \in Alphabet : LET ch == [c EXCEPT !.gb = Boundary(text, c)] IN
              /\ text' = Append(text, ch)
              /\ st' = LexStep(st, ch)
 Result == LexFinish(st)
